@@ -138,6 +138,49 @@ class Translator:
             raise Untranslatable('function %s not found in %s' % (want, spec['file']))
         return cands[0]
 
+    def enum_value(self, spec, node, const_name):
+        """value of an enumeration constant, read from the declaration of its enum in the same translation unit
+        (enumerators without an initialiser count up from the previous one, the first from 0)"""
+        qt = node.get('type', {}).get('qualType', '')
+        ename = qt.split('::')[-1].strip()
+        if not ename or not re.match(r'^\w+$', ename):
+            return None
+        lang = spec.get('flags') or (['-std=gnu++17', '-I', 'dfs'] if spec['file'].endswith(('.cc', '.h')) else ['-std=gnu11', '-I', 'basic'])
+        try:
+            objs = self.ast(spec['file'], ename, lang)
+        except Untranslatable:
+            return None
+        found = []
+
+        def walk(o):
+            if isinstance(o, dict):
+                if o.get('kind') == 'EnumDecl' and o.get('name') == ename and any(c.get('kind') == 'EnumConstantDecl' for c in o.get('inner', [])):
+                    found.append(o)
+                for ch in o.get('inner', []) or []:
+                    walk(ch)
+        for o in objs:
+            walk(o)
+        if not found:
+            return None
+        val = -1
+        for c in found[0].get('inner', []):
+            if c.get('kind') != 'EnumConstantDecl':
+                continue
+            init = None
+            for ch in c.get('inner', []) or []:
+                # an explicit initialiser: clang records the evaluated value on the ConstantExpr
+                if ch.get('kind') == 'ConstantExpr' and 'value' in ch:
+                    init = int(ch['value'])
+                elif ch.get('kind') == 'IntegerLiteral':
+                    init = int(ch['value'])
+                elif ch.get('kind') not in (None, 'FullComment'):
+                    if init is None:
+                        return None         # an initialiser this reader does not understand
+            val = init if init is not None else val + 1
+            if c.get('name') == const_name:
+                return val
+        return None
+
     # ---------------------------------------------------------------- exprs
     def mod(self, e, w):
         return '((%s) %% %d)' % (e, 1 << w)
@@ -165,6 +208,9 @@ class Translator:
             if ref['kind'] == 'EnumConstantDecl':
                 if name in cx.consts:
                     return str(cx.consts[name])
+                v = cx.tr.enum_value(cx.spec, n, name)
+                if v is not None:
+                    return '%d /- %s -/' % (v, name)
                 raise Untranslatable('enum constant %s' % name)
             if name in cx.consts:
                 return str(cx.consts[name])
@@ -272,6 +318,8 @@ class Translator:
                 base = base['inner'][0]
             if base['kind'] != 'CXXThisExpr':
                 raise Untranslatable('member call on non-this')
+            if name in cx.spec.get('callparams', {}) and not args:
+                return cx.spec['callparams'][name]        # an accessor of the object: a parameter of the leaf
             callee = cx.tr.leaves.get(name)
             if callee is None:
                 raise Untranslatable('call to unknown leaf %s' % name)
